@@ -1,15 +1,38 @@
-"""Tracing of every random draw, seed call, pre-drawn row and path boundary of a pricing run — from the harness, by
+"""Tracing of every random draw, seed call, pre-drawn variate and path boundary of a pricing run — from the harness, by
 wrapping (no change to /repo).  Events are appended as JSON lines to one file per process id under a directory (forked
 pathos workers inherit the wrappers and write their own files).
 
 Token semantics (same as lean/RpylibModel/Model/Rng.lean): a draw of `n` scalars from library `lib` in generator state
 `src` at position `pos` consumes tokens (lib, src, pos … pos+n-1); `seed(s)` puts the generator in state ("s", s) at
-position 0 whatever it did before; a process that has never seeded is in state ("a", pid)."""
+position 0 whatever it did before; a process that has never seeded is in state ("a", pid) (main process) or in the state
+("inh", 0) it inherited from its parent (worker processes: two workers drawing from it draw the same variates).
+
+The tracer is independent of HOW the library stores and hands out its pre-drawn variates.  What it relies on:
+ * the PUBLIC process API: `pre_computation(mc_paths, product)` (every variate drawn inside it is a pre-drawn one),
+   `simulate_one_path()` / `simulate_one_path_with_coupling()` (path boundaries; the returned path's `times()`,
+   `value_jump()` and `diffusion_path`), `intensity()`, `dimension()`, `product.times_grid()`;
+ * every draw is logged with the function name and the VALUES returned.
+Which pre-drawn scalars a path consumes is learnt through four channels, none of which names a private attribute:
+ A "container": after `pre_computation` the object graph below the process is searched for the innermost physical stores
+   (deque / list / ndarray, at any depth, under any name, inside any holder object) whose numeric content IS the values just
+   drawn; each is replaced by a logging subclass of its own type (popleft/pop/indexing/iteration report the rows and
+   values they hand out).  Iterators / generators created during the pre-computation are wrapped by a logging iterator.
+ B "arg": the arrays reaching the library's module-level `simulate_diffusion_with_brownian_increments` (where it exists).
+ C "path": the increments of the diffusion component of the returned paths, matched against the pre-drawn normals up to
+   one unknown scale per date (the standard deviation) — used when neither A nor B saw a Brownian variate reach a path,
+   cross-checked against them otherwise.
+ Normal variates are identified BY VALUE (continuous values are unique); jump counts by their position in the store
+ (arrangement of the drawn counts in the store inferred from the values).
+ D degraded mode: when no channel can observe a consumption, the analysis says so (`notes`, `unobserved`) and the caller
+   judges only seeds, counts, seeded repeats and the value-level oracles — the tracer itself never raises into the run."""
 from __future__ import annotations
 
+import copy
+import hashlib
 import json
 import os
 import random as pyrandom
+import sys
 from collections import deque
 from contextlib import contextmanager
 from pathlib import Path
@@ -17,27 +40,72 @@ from pathlib import Path
 import numpy as np
 
 _DIR = {"path": None}
-_BATCH = {"n": 0}
+_BATCH = {"n": 0, "nb": 1, "grid": None, "pre_normals": 0}
+_PRE = {"depth": 0, "f": None, "i": None}
+_PATH = {"depth": 0}
+_FH = {}
 
 
 def _log(ev):
     d = _DIR["path"]
     if d is None:
         return
-    with open(os.path.join(d, f"log.{os.getpid()}"), "a") as f:
-        f.write(json.dumps(ev) + "\n")
+    key = (d, os.getpid())
+    fh = _FH.get(key)
+    if fh is None:
+        fh = _FH[key] = open(os.path.join(d, f"log.{key[1]}"), "a")
+    fh.write(json.dumps(ev) + "\n")
+    fh.flush()                   # workers are killed by pool.terminate(): nothing may stay in a buffer (nor be inherited by a fork)
+
+
+def _tracer_error(where, e):
+    try:
+        _log({"e": "tracer_error", "where": where, "what": f"{type(e).__name__}: {e}"[:300]})
+    except Exception:
+        pass
+
+
+def _vals(x):
+    """numeric content of whatever a draw / a container hands out -> (kind 'f' | 'i' | None, flat python list)"""
+    try:
+        a = np.asarray(x)
+        if a.dtype == object:
+            a = np.asarray([v for r in x for v in np.asarray(r).ravel()])
+        if a.dtype.kind in "iub":
+            return "i", [int(v) for v in a.ravel()]
+        if a.dtype.kind == "f":
+            return "f", [float(v) for v in a.ravel()]
+    except Exception:
+        pass
+    return None, []
+
+
+# ------------------------------------------------------------------------------------------------ logging stores (channel A)
+def _hand(label, rows, item):
+    """one hand-out of a labelled store: which rows (positions in the store as it was after the pre-computation; None if
+    unknown) and which values"""
+    try:
+        if label is None:
+            return
+        kind, vals = _vals(item)
+        _log({"e": "hand", "ch": "cont", "q": label[0], "batch": label[1], "rows": rows, "k": kind, "v": vals})
+    except Exception as e:  # noqa
+        _tracer_error("hand", e)
 
 
 class LogDeque(deque):
-    """deque of pre-drawn rows that logs which row (of which batch) every popleft hands out"""
+    """deque of pre-drawn rows that logs which row (of which batch) every popleft / pop / indexing hands out"""
 
     def __init__(self, items=(), kind="?", batch=-1):
         super().__init__(items)
-        self.kind, self.batch, self.popped = kind, batch, 0
+        self.kind, self.batch, self.popped, self.exact = kind, batch, 0, True
+
+    def _row(self, i):
+        return [self.popped + i] if self.exact else None
 
     def popleft(self):
         item = super().popleft()
-        _log({"e": "pop", "q": self.kind, "batch": self.batch, "row": self.popped})
+        _hand((self.kind, self.batch), self._row(0), item)
         self.popped += 1
         return item
 
@@ -45,36 +113,295 @@ class LogDeque(deque):
         # a row read without being removed is a consumption of that row as well
         item = super().__getitem__(i)
         if isinstance(i, int):
-            _log({"e": "pop", "q": self.kind, "batch": self.batch, "row": self.popped + (i if i >= 0 else len(self) + i)})
+            _hand((self.kind, self.batch), self._row(i if i >= 0 else len(self) + i), item)
         return item
 
     def pop(self):
         item = super().pop()
-        _log({"e": "pop", "q": self.kind, "batch": self.batch, "row": self.popped + len(self)})
+        _hand((self.kind, self.batch), self._row(len(self)), item)
         return item
 
+    def __iter__(self):
+        for k, item in enumerate(super().__iter__()):
+            _hand((self.kind, self.batch), self._row(k), item)
+            yield item
+
+    def rotate(self, n=1):
+        self.exact = False
+        return super().rotate(n)
+
     def __reduce__(self):
-        return (_rebuild_logdeque, (list(self), self.kind, self.batch, self.popped))
+        return (_rebuild_logdeque, (list(deque.__iter__(self)), self.kind, self.batch, self.popped, self.exact))
 
     def __deepcopy__(self, memo):
-        c = LogDeque(list(self), self.kind, self.batch)
-        c.popped = self.popped
-        return c
+        return _rebuild_logdeque(copy.deepcopy(list(deque.__iter__(self)), memo), self.kind, self.batch, self.popped, self.exact)
+
+    def __copy__(self):
+        return _rebuild_logdeque(list(deque.__iter__(self)), self.kind, self.batch, self.popped, self.exact)
+
+
+def _rebuild_logdeque(items, kind, batch, popped, exact=True):
+    d = LogDeque(items, kind, batch)
+    d.popped, d.exact = popped, exact
+    return d
+
+
+class LogList(list):
+    """list of pre-drawn rows: indexing, pop, iteration report what they hand out"""
+
+    def __init__(self, items=(), kind="?", batch=-1):
+        super().__init__(items)
+        self.kind, self.batch, self.popped, self.exact = kind, batch, 0, True
+
+    def _rows(self, idx):
+        return [self.popped + int(i) for i in idx] if self.exact else None
+
+    def __getitem__(self, i):
+        item = list.__getitem__(self, i)
+        n = list.__len__(self)
+        if isinstance(i, slice):
+            _hand((self.kind, self.batch), self._rows(range(*i.indices(n))), item)
+        else:
+            _hand((self.kind, self.batch), self._rows([i if i >= 0 else n + i]), item)
+        return item
+
+    def pop(self, i=-1):
+        n = list.__len__(self)
+        item = list.pop(self, i)
+        j = i if i >= 0 else n + i
+        _hand((self.kind, self.batch), self._rows([j]), item)
+        if j == 0:
+            self.popped += 1
+        elif j != n - 1:
+            self.exact = False
+        return item
+
+    def __iter__(self):
+        for k, item in enumerate(list.__iter__(self)):
+            _hand((self.kind, self.batch), self._rows([k]), item)
+            yield item
+
+    def __delitem__(self, i):
+        if i == 0 or i == slice(0, 1):
+            self.popped += 1
+        else:
+            self.exact = False
+        return list.__delitem__(self, i)
+
+    def __reduce__(self):
+        return (_rebuild_loglist, (list(list.__iter__(self)), self.kind, self.batch, self.popped, self.exact))
+
+    def __deepcopy__(self, memo):
+        return _rebuild_loglist(copy.deepcopy(list(list.__iter__(self)), memo), self.kind, self.batch, self.popped, self.exact)
+
+    def __copy__(self):
+        return _rebuild_loglist(list(list.__iter__(self)), self.kind, self.batch, self.popped, self.exact)
+
+
+def _rebuild_loglist(items, kind, batch, popped, exact=True):
+    d = LogList(items, kind, batch)
+    d.popped, d.exact = popped, exact
+    return d
+
+
+class LogArray(np.ndarray):
+    """ndarray of pre-drawn variates (first axis = rows): indexing / iteration report what they hand out and return plain
+    ndarrays; arrays derived from it (ufuncs, copies made by numpy) carry no label and log nothing"""
+
+    def __new__(cls, arr, kind="?", batch=-1):
+        obj = np.asarray(arr).view(cls)
+        obj._lab = (kind, batch)
+        return obj
+
+    def __array_finalize__(self, obj):
+        self._lab = None
+
+    def __getitem__(self, i):
+        out = np.ndarray.__getitem__(self, i)
+        lab = getattr(self, "_lab", None)
+        if isinstance(out, np.ndarray):
+            out = out.view(np.ndarray)
+        if lab is not None:
+            rows = None
+            try:
+                first = i[0] if isinstance(i, tuple) and len(i) else i
+                if not (isinstance(i, tuple) and len(i) == 0) and first is not Ellipsis:
+                    rows = [int(r) for r in np.atleast_1d(np.arange(self.shape[0])[first]).ravel()]
+            except Exception:
+                rows = None
+            _hand(lab, rows, out)
+        return out
+
+    def __iter__(self):
+        for k in range(self.shape[0]):
+            yield self[k]
+
+    def __reduce__(self):
+        lab = getattr(self, "_lab", None) or ("?", -1)
+        return (_rebuild_logarray, (np.asarray(self).view(np.ndarray).copy(), lab[0], lab[1], getattr(self, "_lab", None) is not None))
+
+    def __deepcopy__(self, memo):
+        lab = getattr(self, "_lab", None)
+        c = np.array(self.view(np.ndarray), copy=True)
+        return LogArray(c, *lab) if lab is not None else c
 
     def __copy__(self):
         return self.__deepcopy__({})
 
 
-def _rebuild_logdeque(items, kind, batch, popped):
-    d = LogDeque(items, kind, batch)
-    d.popped = popped
-    return d
+def _rebuild_logarray(arr, kind, batch, labelled=True):
+    return LogArray(arr, kind, batch) if labelled else arr
 
 
-def _count(size):
-    if size is None:
-        return 1
-    return int(np.prod(size))
+class LogIter:
+    """logging stand-in for an iterator / generator the library created during the pre-computation"""
+
+    def __init__(self, target, kind="it", batch=-1):
+        self._t, self._lab = target, (kind, batch)
+
+    def __iter__(self):
+        return self
+
+    def __next__(self):
+        item = next(self._t)
+        _hand(self._lab, None, item)
+        return item
+
+    def __getattr__(self, name):                # send / throw / close / gi_frame … of the wrapped object
+        if name in ("_t", "_lab"):
+            raise AttributeError(name)
+        return getattr(self._t, name)
+
+    def __length_hint__(self):
+        import operator
+        return operator.length_hint(self._t)
+
+    def __reduce__(self):
+        return (LogIter, (self._t, self._lab[0], self._lab[1]))
+
+    def __deepcopy__(self, memo):
+        return LogIter(copy.deepcopy(self._t, memo), *self._lab)
+
+    def __copy__(self):
+        return LogIter(copy.copy(self._t), *self._lab)
+
+
+_LOGGING_TYPES = (LogDeque, LogList, LogArray, LogIter)
+
+
+def _is_iter(v):
+    return hasattr(v, "__next__") and not isinstance(v, LogIter) and not isinstance(v, type)
+
+
+def _is_lib_obj(v):
+    t = type(v)
+    return (getattr(t, "__module__", "") or "").startswith("rpylib") and not isinstance(v, type)
+
+
+def _attrs(o):
+    out = {}
+    d = getattr(o, "__dict__", None)
+    if isinstance(d, dict):
+        out.update(d)
+    for cls in type(o).__mro__:
+        s = cls.__dict__.get("__slots__", ())
+        if isinstance(s, str):
+            s = (s,)
+        for n in s:
+            if n in ("__dict__", "__weakref__"):
+                continue
+            nn = f"_{cls.__name__.lstrip('_')}{n}" if n.startswith("__") and not n.endswith("__") else n
+            try:
+                out[nn] = getattr(o, nn)
+            except AttributeError:
+                pass
+    return out
+
+
+def _walk(root, max_depth=5, limit=600):
+    """(owner, attribute name, value) for every plain store / iterator held (at any depth) by library objects below root"""
+    seen = {id(root)}
+    stack = [(root, 0)]
+    while stack and len(seen) < limit:
+        o, depth = stack.pop()
+        try:
+            items = list(_attrs(o).items())
+        except Exception:
+            continue
+        for name, v in items:
+            if isinstance(v, (deque, list, np.ndarray)) or isinstance(v, LogIter) or _is_iter(v):
+                yield o, name, v
+            elif depth < max_depth and _is_lib_obj(v) and id(v) not in seen:
+                seen.add(id(v))
+                stack.append((v, depth + 1))
+
+
+def _size(v):
+    try:
+        return len(v)
+    except Exception:
+        return -1
+
+
+def _flat(v):
+    try:
+        a = np.asarray(list(deque.__iter__(v)) if isinstance(v, deque) else list(list.__iter__(v)) if isinstance(v, list) else v.view(np.ndarray))
+    except Exception:
+        return None
+    if a.dtype == object or a.size == 0 or a.dtype.kind not in "iuf":
+        return None
+    return a
+
+
+def _discover(root, batch, rows, before):
+    """label and wrap the stores that hold the variates drawn by the pre-computation that has just returned"""
+    found, snap = [], None
+    fset, iset = _PRE["f"] or set(), _PRE["i"] or set()
+    for owner, name, v in list(_walk(root)):
+        try:
+            if isinstance(v, _LOGGING_TYPES) and not isinstance(v, LogIter):
+                lab = (v.kind, v.batch) if not isinstance(v, LogArray) else getattr(v, "_lab", None)
+                if lab is not None and lab[1] == batch:
+                    continue                                   # already wrapped for this batch (shared between two holders)
+            changed = before.get((id(owner), name)) != (id(v), _size(v))
+            if isinstance(v, LogIter) or _is_iter(v):
+                if changed and not isinstance(v, LogIter):
+                    setattr(owner, name, LogIter(v, "it", batch))
+                    found.append({"q": "it", "type": type(v).__name__, "holder": type(owner).__name__})
+                continue
+            a = _flat(v)
+            if a is None:
+                continue
+            kind = None
+            if a.dtype.kind == "f":
+                probe = a.ravel()[[0, -1]]
+                if fset and all(float(x) in fset for x in probe):
+                    kind = "b"
+            elif changed and iset and _size(v) == rows and a.ndim >= 1 and all(int(x) in iset for x in np.unique(a)):
+                kind = "p"
+            if kind is None:
+                continue
+            if isinstance(v, deque):
+                new = LogDeque(list(deque.__iter__(v)), kind, batch)
+            elif isinstance(v, list):
+                new = LogList(list(list.__iter__(v)), kind, batch)
+            else:
+                new = LogArray(v.view(np.ndarray), kind, batch)
+            setattr(owner, name, new)
+            found.append({"q": kind, "type": type(v).__name__, "holder": type(owner).__name__})
+            if kind == "p" and snap is None:
+                a2 = a.reshape(a.shape[0], -1)
+                snap = {"shape": list(a2.shape), "v": [int(x) for x in a2.ravel()]}
+        except Exception as e:  # noqa  (read-only holder, exotic store …): the value-level channels take over
+            found.append({"q": "unwrappable", "type": type(v).__name__, "holder": type(owner).__name__, "why": f"{type(e).__name__}"})
+    return found, snap
+
+
+# ------------------------------------------------------------------------------------------------ installation
+_NP_SKIP = {"seed", "get_state", "set_state", "shuffle", "bytes", "get_bit_generator", "set_bit_generator"}
+_PY_FUNCS = ("random", "getrandbits", "randint", "randrange", "uniform", "gauss", "normalvariate", "expovariate", "choice",
+             "betavariate", "gammavariate", "lognormvariate", "paretovariate", "triangular", "vonmisesvariate",
+             "weibullvariate", "binomialvariate")
 
 
 @contextmanager
@@ -86,70 +413,174 @@ def tracing(directory):
     for f in Path(directory).glob("log.*"):
         f.unlink()
     _DIR["path"] = str(directory)
-    _BATCH["n"] = 0
+    _BATCH.update(n=0, nb=1, grid=None, pre_normals=0)
+    _PRE.update(depth=0, f=None, i=None)
+    _PATH["depth"] = 0
     saved = []
 
     def patch(obj, name, new):
         saved.append((obj, name, getattr(obj, name)))
         setattr(obj, name, new)
 
-    def wrap_draw(lib, orig, size_of):
+    def patch_method(cls, name, wrap):
+        """wrap a public method if the library (still) has it; its absence only narrows what can be observed"""
+        if callable(getattr(cls, name, None)):
+            patch(cls, name, wrap(getattr(cls, name)))
+        else:
+            _log({"e": "tracer_error", "where": "install", "what": f"{cls.__name__}.{name} not found: scope not observed"})
+
+    # ---- draws and seeds
+    def wrap_np(name, orig):
         def f(*a, **k):
-            _log({"e": "draw", "lib": lib, "n": size_of(a, k)})
-            return orig(*a, **k)
+            out = orig(*a, **k)
+            try:
+                kind, vals = _vals(out)
+                n = len(vals) if kind else max(1, int(np.size(out)))
+                _log({"e": "draw", "lib": "np", "fn": name, "n": n, "k": kind, "v": vals})
+                if _PRE["depth"] > 0 and kind:
+                    (_PRE["f"] if kind == "f" else _PRE["i"]).update(vals)
+            except Exception as e:  # noqa
+                _tracer_error("draw", e)
+            return out
+        f.__name__ = name
+        return f
+
+    def wrap_py(name, orig):
+        def f(*a, **k):
+            out = orig(*a, **k)
+            try:
+                _log({"e": "draw", "lib": "py", "fn": name, "n": 1, "k": None, "v": []})
+            except Exception as e:  # noqa
+                _tracer_error("draw", e)
+            return out
+        f.__name__ = name
         return f
 
     npr = np.random
     o_seed = npr.seed
     patch(npr, "seed", lambda s=None: (_log({"e": "seed", "lib": "np", "s": None if s is None else int(s)}), o_seed(s))[1])
-    for name in ("normal", "uniform", "random", "random_sample", "poisson", "choice", "exponential"):
+    global_state = getattr(getattr(npr, "mtrand", None), "_rand", None)
+    for name in sorted(dir(npr)):
+        if name.startswith("_") or name in _NP_SKIP:
+            continue
         orig = getattr(npr, name)
-        if name == "choice":
-            patch(npr, name, wrap_draw("np", orig, lambda a, k: _count(k.get("size", a[1] if len(a) > 1 else None))))
-        elif name in ("random", "random_sample"):
-            patch(npr, name, wrap_draw("np", orig, lambda a, k: _count(k.get("size", a[0] if a else None))))
-        elif name == "poisson" or name == "exponential":
-            patch(npr, name, wrap_draw("np", orig, lambda a, k: _count(k.get("size", a[1] if len(a) > 1 else None))))
-        else:  # normal(loc, scale, size) / uniform(low, high, size)
-            patch(npr, name, wrap_draw("np", orig, lambda a, k: _count(k.get("size", a[2] if len(a) > 2 else None))))
+        if callable(orig) and global_state is not None and getattr(orig, "__self__", None) is global_state:
+            patch(npr, name, wrap_np(name, orig))
     p_seed = pyrandom.seed
     patch(pyrandom, "seed", lambda s=None, *a: (_log({"e": "seed", "lib": "py", "s": None if s is None else int(s)}), p_seed(s, *a))[1])
-    patch(pyrandom, "getrandbits", wrap_draw("py", pyrandom.getrandbits, lambda a, k: 1))
-    patch(pyrandom, "random", wrap_draw("py", pyrandom.random, lambda a, k: 1))
+    for name in _PY_FUNCS:
+        if hasattr(pyrandom, name):
+            patch(pyrandom, name, wrap_py(name, getattr(pyrandom, name)))
 
-    # pre-drawn rows: label the two deques of SimulationFixedTimes
-    o_pre = levyprocess.SimulationFixedTimes.pre_computation
+    # ---- pre-computation scope (public process API) + discovery of the stores
+    def wrap_pre(orig):
+        def pre_computation(self, mc_paths, product, *a, **k):
+            outer = _PRE["depth"] == 0
+            before = {}
+            if outer:
+                try:
+                    batch = _BATCH["n"] = _BATCH["n"] + 1
+                    _PRE["f"], _PRE["i"] = set(), set()
+                    _log({"e": "pre_begin", "batch": batch, "rows": int(mc_paths)})
+                    before = {(id(o), n): (id(v), _size(v)) for o, n, v in _walk(self)}
+                except Exception as e:  # noqa
+                    _tracer_error("pre_begin", e)
+            _PRE["depth"] += 1
+            try:
+                out = orig(self, mc_paths, product, *a, **k)
+            finally:
+                _PRE["depth"] -= 1
+            if outer:
+                try:
+                    batch = _BATCH["n"]
+                    proc = getattr(self, "fine_process", self)
+                    grid = [float(t) for t in product.times_grid()]
+                    found, snap = _discover(self, batch, int(mc_paths), before)
+                    _BATCH.update(nb=len(grid) - 1, grid=grid, pre_normals=len(_PRE["f"]))
+                    _log({"e": "pre_end", "batch": batch, "rows": int(mc_paths), "nb": len(grid) - 1, "grid": grid,
+                          "dim": int(proc.dimension()), "lam": float(proc.intensity()), "cont": found, "snap": snap})
+                except Exception as e:  # noqa
+                    _tracer_error("pre_end", e)
+                    _log({"e": "pre_end", "batch": _BATCH["n"], "rows": int(mc_paths), "nb": None, "grid": None, "dim": None,
+                          "lam": None, "cont": [], "snap": None})
+                _PRE["f"], _PRE["i"] = None, None
+            return out
+        return pre_computation
 
-    def pre_computation(self, mc_paths, product):
-        batch = _BATCH["n"] = _BATCH["n"] + 1
-        _log({"e": "pre_begin", "batch": batch, "rows": int(mc_paths)})
-        o_pre(self, mc_paths, product)
-        nb = len(self._times) - 1
-        _log({"e": "pre_end", "batch": batch, "rows": int(mc_paths), "nb": nb, "dim": int(self.process.dimension())})
-        self._brownian_increments = LogDeque(list(self._brownian_increments), "b", batch)
-        self._poisson_rv = LogDeque(list(self._poisson_rv), "p", batch)
+    patch_method(levyprocess.LevyProcess, "pre_computation", wrap_pre)
+    patch_method(couplingmarkovchain.CouplingMarkovChain, "pre_computation", wrap_pre)
 
-    patch(levyprocess.SimulationFixedTimes, "pre_computation", pre_computation)
+    # ---- channel B: arrays reaching the module-level diffusion helper (wherever it has been imported)
+    helper = getattr(levyprocess, "simulate_diffusion_with_brownian_increments", None)
+    if callable(helper):
+        def diffusion_helper(scaled_stddev, brownian_increments, *a, **k):
+            try:
+                kind, vals = _vals(brownian_increments)
+                _log({"e": "hand", "ch": "arg", "q": "b", "batch": None, "rows": None, "k": kind, "v": vals})
+            except Exception as e:  # noqa
+                _tracer_error("arg", e)
+            return helper(scaled_stddev, brownian_increments, *a, **k)
+        for mod in list(sys.modules.values()):
+            if getattr(mod, "__name__", "").startswith("rpylib") and getattr(mod, "simulate_diffusion_with_brownian_increments", None) is helper:
+                patch(mod, "simulate_diffusion_with_brownian_increments", diffusion_helper)
 
-    # path boundaries
+    # ---- path boundaries + what the returned path object shows (channel C, activity per date, duplicates)
+    def describe(path):
+        out = {}
+        try:
+            times = np.asarray(path.times(), dtype=float)
+            out["steps"] = int(times.size - 1)
+            grid = _BATCH["grid"]
+            jp = np.asarray(path.value_jump(), dtype=float)
+            jp2 = jp.reshape(-1, jp.shape[-1])
+            if grid is not None and len(grid) > 2:
+                g = np.asarray(grid)
+                if times.size == g.size and np.allclose(times, g, rtol=0, atol=1e-12) and jp2.shape[-1] == g.size:
+                    out["act"] = [int(np.any(jp2[:, k + 1] != 0.0)) for k in range(g.size - 1)]
+                else:
+                    inner = times[1:-1]
+                    out["act"] = [int(np.any((inner > g[k]) & (inner < g[k + 1]))) for k in range(g.size - 1)]
+            dp = np.asarray(getattr(path, "diffusion_path"), dtype=float)
+            dp2 = dp.reshape(-1, dp.shape[-1])
+            if np.any(dp2 != 0.0):
+                out["dh"] = hashlib.sha1(np.ascontiguousarray(dp2[0]).tobytes()).hexdigest()[:16]
+                if _BATCH["pre_normals"] > 0 and dp2.shape[-1] <= 64:
+                    out["d"] = [float(x) for x in np.diff(dp2[0])]
+        except Exception as e:  # noqa
+            _tracer_error("describe", e)
+        return out
+
     def wrap_path(orig):
         def f(self, *a, **k):
-            _log({"e": "path_begin"})
+            outer = _PATH["depth"] == 0
+            if outer:
+                _log({"e": "path_begin", "batch": _BATCH["n"]})
+            _PATH["depth"] += 1
+            res, ok = None, False
             try:
-                return orig(self, *a, **k)
+                res = orig(self, *a, **k)
+                ok = True
+                return res
             finally:
-                _log({"e": "path_end"})
+                _PATH["depth"] -= 1
+                if outer:
+                    _log(dict({"e": "path_end"}, **(describe(res) if ok else {})))
         return f
 
-    patch(levyprocess.LevyProcess, "simulate_one_path", wrap_path(levyprocess.LevyProcess.simulate_one_path))
-    patch(couplingmarkovchain.CouplingMarkovChain, "simulate_one_path_with_coupling",
-          wrap_path(couplingmarkovchain.CouplingMarkovChain.simulate_one_path_with_coupling))
+    patch_method(levyprocess.LevyProcess, "simulate_one_path", wrap_path)
+    patch_method(couplingmarkovchain.CouplingMarkovChain, "simulate_one_path_with_coupling", wrap_path)
     try:
         yield
     finally:
         for obj, name, old in reversed(saved):
             setattr(obj, name, old)
+        d = _DIR["path"]
         _DIR["path"] = None
+        for key in [k for k in _FH if k[0] == d]:
+            try:
+                _FH.pop(key).close()
+            except Exception:
+                pass
 
 
 def read(directory, main_pid=None):
@@ -161,85 +592,240 @@ def read(directory, main_pid=None):
     return out
 
 
+# ------------------------------------------------------------------------------------------------ analysis
+_NORMAL_FNS = ("normal", "standard_normal", "randn")
+_COUNT_FNS = ("poisson",)
+
+
+def _arrangement(snap, pois):
+    """tokens of the cells of the jump-count store: how the drawn counts were arranged in it, inferred from the values.
+    -> {row: [tokens]} or None"""
+    if snap is None or not pois:
+        return None
+    r, c = snap["shape"]
+    s = snap["v"]
+    if len(pois) != r * c:
+        return None
+    vals = [v for v, _ in pois]
+    col = all(s[i * c + k] == vals[k * r + i] for i in range(r) for k in range(c))      # date by date (the library's order)
+    row = all(s[i * c + k] == vals[i * c + k] for i in range(r) for k in range(c))      # path by path
+    if col:
+        return {i: [pois[k * r + i][1] for k in range(c)] for i in range(r)}
+    if row:
+        return {i: [pois[i * c + k][1] for k in range(c)] for i in range(r)}
+    return None
+
+
+def _match_path_values(paths, normals):
+    """channel C.  paths: list of dicts with 'd' (increments of the diffusion component, one per date); normals: [(value, token)].
+    -> {index in paths: [tokens]} for the paths whose increments are, date by date, one common scale times a pre-drawn normal"""
+    out = {}
+    ps = [(i, p["d"]) for i, p in enumerate(paths) if p.get("d")]
+    if len(ps) < 3 or not normals:
+        return out
+    nb = len(ps[0][1])
+    if any(len(d) != nb for _, d in ps):
+        return out
+    order = np.argsort([v for v, _ in normals])
+    V = np.array([normals[j][0] for j in order])
+    T = [normals[j][1] for j in order]
+    tol = 1e-11
+
+    def nearest(x):
+        j = np.clip(np.searchsorted(V, x), 1, len(V) - 1)
+        lo, hi = V[j - 1], V[j]
+        pick = np.where(np.abs(x - lo) <= np.abs(hi - x), j - 1, j)
+        return pick, np.abs(V[pick] - x)
+
+    if len(V) < 2:
+        return out
+    for k in range(nb):
+        col = np.array([d[k] for _, d in ps])
+        nz = np.flatnonzero(col != 0.0)
+        if len(nz) < 3 or len(set(col[nz].tolist())) < 3:       # the scale is identified by >= 3 distinct values only
+            return {}
+        ref = col[nz[int(np.argmax(np.abs(col[nz])))]]        # the best conditioned quotient
+        hit = None
+        for v in V:
+            if abs(v) < 1e-9:
+                continue
+            x = col[nz] / (ref / v)
+            pick, err = nearest(x)
+            if np.all(err <= tol * np.maximum(1.0, np.abs(x))):
+                hit = pick
+                break
+        if hit is None:
+            return {}
+        for m, j in zip(nz, hit):
+            out.setdefault(ps[m][0], []).append(T[int(j)])
+    return out
+
+
 def analyse(events_by_pid, main_pid):
     """Turn the event streams into consumption tokens.
-    Returns dict(paths=[{pid, tokens:[(lib,src,pos)…]}], seeds=[(pid, lib, s, draws_before)], passes=[…structure of the main
-    process…], problems=[…])"""
-    problems, paths, seeds = [], [], []
-    batch_tokens = {}          # (batch, q, row) -> [tokens]   (pre-drawn rows belong to the process that drew them: main)
-    passes = []                # structure of the main process for the model: dict(rows, n, fly, predraw)
+    Returns dict(paths=[{pid, batch, tokens, fly, steps, act, dh, n_count, n_normal}], seeds=[(pid, lib, s, draws_before)],
+    passes=[…structure of the main process for the model…], batches={…}, problems=[…violations visible on the trace alone…],
+    notes=[…what could not be observed…], channels={…}, exact=bool (tokens of all pre-drawn variates identified))"""
+    problems, notes, paths, seeds = [], [], [], []
+    batches = {}               # batch -> dict(rows, nb, dim, lam, grid, normals=[(v, tok)], counts=[(v, tok)], ptoks, cont, pid)
+    norm_tok = {}              # value of a pre-drawn normal -> token
+    passes = []
+    channels = {"cont": 0, "arg": 0, "path": 0, "it": 0}
+    outside = 0
+    timeline = []              # main process: ("draw", fn, n) / ("path", index) in order, for the prefix counting oracle
+    totals = {"count": 0, "normal": 0}       # scalars drawn by jump-count / normal functions, all processes
     for pid in sorted(events_by_pid, key=lambda p: (p != main_pid, p)):
         evs = events_by_pid[pid]
-        state = {"np": [("a", pid), 0], "py": [("a", pid), 0]}
-        seeded = {"np": False, "py": False}
+        start = ("a", pid) if pid == main_pid else ("inh", 0)
+        state = {"np": [start, 0], "py": [start, 0]}
         draws_since_start = 0
         cur_path = None
         in_pre = None
-        pre_draw_tokens = []
         cur_pass = None
         for ev in evs:
             e = ev["e"]
             if e == "seed":
                 seeds.append((pid, ev["lib"], ev["s"], draws_since_start))
                 state[ev["lib"]] = [("s", ev["s"]), 0]
-                seeded[ev["lib"]] = True
             elif e == "draw":
                 lib, n = ev["lib"], ev["n"]
-                if pid != main_pid and not seeded[lib]:
-                    problems.append({"what": "a worker process draws from the generator state it inherited from its parent", "pid": pid, "lib": lib})
                 src, pos = state[lib]
                 toks = [(lib, src, pos + i) for i in range(n)]
                 state[lib][1] = pos + n
                 draws_since_start += n
+                fn = ev.get("fn")
+                if fn in _COUNT_FNS:
+                    totals["count"] += n
+                if fn in _NORMAL_FNS:
+                    totals["normal"] += n
+                if pid == main_pid:
+                    timeline.append(("draw", fn, n))
                 if in_pre is not None:
-                    pre_draw_tokens.append(toks)
+                    b = batches[in_pre]
+                    if ev.get("k") == "f" and len(ev["v"]) == n:
+                        for v, t in zip(ev["v"], toks):
+                            b["normals"].append((v, t))
+                            norm_tok.setdefault(v, t)
+                    elif ev.get("k") == "i" and len(ev["v"]) == n:
+                        b["counts"] += list(zip(ev["v"], toks))
+                    else:
+                        b["other"] += n
                 elif cur_path is not None:
                     cur_path["tokens"] += toks
                     cur_path["fly"] += n
+                    if fn in _COUNT_FNS:
+                        cur_path["n_count"] += n
+                    if fn in _NORMAL_FNS:
+                        cur_path["n_normal"] += n
                 else:
-                    problems.append({"what": "draw outside a path and outside a pre-computation", "pid": pid, "n": n})
+                    outside += n
             elif e == "pre_begin":
-                in_pre, pre_draw_tokens = ev["batch"], []
+                in_pre = ev["batch"]
+                batches[in_pre] = dict(rows=ev["rows"], nb=None, dim=None, lam=None, grid=None, normals=[], counts=[], other=0,
+                                       ptoks=None, cont=[], pid=pid, paths=[])
             elif e == "pre_end":
-                rows, nb, dim = ev["rows"], ev["nb"], ev["dim"]
-                flat = [t for ts in pre_draw_tokens for t in ts]
-                # draw order in SimulationFixedTimes.pre_computation: Poisson counts interval by interval (rows each), then
-                # one normal call of rows*dim*nb scalars
-                pois, brow = flat[:rows * nb], flat[rows * nb:]
-                for r in range(rows):
-                    batch_tokens[(ev["batch"], "p", r)] = [pois[k * rows + r] for k in range(nb)] if len(pois) == rows * nb else None
-                    batch_tokens[(ev["batch"], "b", r)] = brow[r * dim * nb:(r + 1) * dim * nb] if len(brow) == rows * dim * nb else None
-                if len(flat) != rows * nb + rows * dim * nb:
-                    problems.append({"what": "pre-computation drew an unexpected number of variates", "rows": rows, "drawn": len(flat)})
+                b = batches.get(ev["batch"])
+                if b is None:
+                    continue
+                b.update(nb=ev["nb"], dim=ev["dim"], lam=ev["lam"], grid=ev["grid"], cont=ev["cont"])
+                b["ptoks"] = _arrangement(ev.get("snap"), b["counts"])
+                b["snap"] = ev.get("snap")
                 in_pre = None
                 if pid == main_pid:
-                    cur_pass = {"rows": rows * nb, "rows_b": rows * dim * nb, "n": 0, "fly": [], "predraw": True, "unit": (nb, dim)}
+                    predraw = bool(b["normals"] or b["counts"])
+                    cur_pass = {"rows": len(b["counts"]), "rows_b": len(b["normals"]), "n": 0, "fly": [], "predraw": predraw,
+                                "unit": (b["nb"], b["dim"]), "batch": ev["batch"]}
                     passes.append(cur_pass)
             elif e == "path_begin":
-                cur_path = {"pid": pid, "tokens": [], "fly": 0, "pops": []}
+                cur_path = {"pid": pid, "batch": ev.get("batch"), "tokens": [], "pre": set(), "fly": 0, "hands": [], "n_count": 0,
+                            "n_normal": 0, "seen_b": False, "seen_p": False}
             elif e == "path_end":
                 if cur_path is not None:
+                    cur_path.update(steps=ev.get("steps"), act=ev.get("act"), dh=ev.get("dh"), d=ev.get("d"))
                     paths.append(cur_path)
+                    if cur_path["batch"] in batches:
+                        batches[cur_path["batch"]]["paths"].append(len(paths) - 1)
                     if pid == main_pid:
-                        if cur_path["pops"]:
-                            if cur_pass is None:
-                                cur_pass = {"rows": 0, "n": 0, "fly": [], "predraw": True, "unit": (1, 1)}
-                                passes.append(cur_pass)
-                            cur_pass["n"] += 1
-                            cur_pass["fly"].append(cur_path["fly"])
-                        else:
-                            if cur_pass is None or cur_pass["predraw"]:
-                                cur_pass = {"rows": 0, "n": 0, "fly": [], "predraw": False, "unit": (1, 1)}
-                                passes.append(cur_pass)
-                            cur_pass["n"] += 1
-                            cur_pass["fly"].append(cur_path["fly"])
+                        timeline.append(("path", len(paths) - 1))
+                        if cur_pass is None:
+                            cur_pass = {"rows": 0, "rows_b": 0, "n": 0, "fly": [], "predraw": False, "unit": (1, 1), "batch": None}
+                            passes.append(cur_pass)
+                        cur_pass["n"] += 1
+                        cur_pass["fly"].append(cur_path["fly"])
                 cur_path = None
-            elif e == "pop":
-                toks = batch_tokens.get((ev["batch"], ev["q"], ev["row"]))
-                if toks is None:
-                    problems.append({"what": "pop of an unknown pre-drawn row", "ev": ev})
-                    toks = [("row", (ev["batch"], ev["q"]), ev["row"])]
-                if cur_path is not None:
-                    cur_path["tokens"] += toks
-                    cur_path["pops"].append((ev["batch"], ev["q"], ev["row"]))
-    return dict(paths=paths, seeds=seeds, passes=passes, problems=problems)
+            elif e == "hand":
+                if cur_path is None:
+                    continue
+                ch = "it" if ev.get("q") == "it" else ev.get("ch", "cont")
+                if ev.get("k") == "f":
+                    hit = [norm_tok[v] for v in ev["v"] if v in norm_tok]
+                    if hit:
+                        channels[ch] += 1
+                        cur_path["seen_b"] = True
+                        cur_path["pre"].update(hit)
+                elif ev.get("q") == "p":
+                    b = batches.get(ev.get("batch"))
+                    rows = ev.get("rows")
+                    cur_path["seen_p"] = True
+                    channels[ch] += 1
+                    if rows is None or b is None:
+                        cur_path["p_unlocated"] = True
+                    else:
+                        for r in rows:
+                            toks = (b["ptoks"] or {}).get(r)
+                            if toks is None:        # counts not locatable among the draws: the cell itself is the unit consumed
+                                toks = [("cell", (ev["batch"], "p"), r)]
+                                cur_path["p_synthetic"] = True
+                            cur_path["pre"].update(toks)
+            elif e == "tracer_error":
+                notes.append(f"tracer: {ev.get('where')}: {ev.get('what')}")
+    # ---- channel C (values of the returned paths) per batch: fallback, cross-check otherwise
+    for bid, b in batches.items():
+        bp = [paths[i] for i in b["paths"]]
+        if not b["normals"] or b["dim"] != 1 or len(bp) < 3:
+            continue
+        m = _match_path_values(bp, b["normals"])
+        if not m:
+            continue
+        observed = any(p["seen_b"] for p in bp)
+        if observed:
+            bad = [j for j, toks in m.items() if bp[j]["seen_b"] and not set(toks) <= bp[j]["pre"]]
+            if bad:
+                notes.append("a batch where the values of the returned paths point to other pre-drawn normals than the stores handed out: "
+                             "channel C ignored there")
+            else:
+                channels["path"] += len(m)
+        else:
+            for j, toks in m.items():
+                bp[j]["pre"].update(toks)
+                bp[j]["seen_b"] = True
+                bp[j]["via_path"] = True
+            channels["path"] += len(m)
+    # ---- what stayed unobservable
+    unobserved = {"normal": 0, "count": 0}
+    exact = True
+    for bid, b in batches.items():
+        bp = [paths[i] for i in b["paths"]]
+        if not bp:
+            continue
+        if b["normals"] and not all(p["seen_b"] for p in bp):
+            unobserved["normal"] += 1
+            exact = False
+        if b["counts"] and (not all(p["seen_p"] for p in bp) or any(p.get("p_unlocated") or p.get("p_synthetic") for p in bp)):
+            unobserved["count"] += 1
+            exact = False
+    if unobserved["normal"]:
+        notes.append("some batches: which pre-drawn normal variates the paths consume could not be observed (no store, helper argument or "
+                     "path value matched): Brownian part judged on counts and value-level oracles only")
+    if unobserved["count"]:
+        notes.append("some batches: which pre-drawn jump counts the paths consume could not be located among the draws: jump counts "
+                     "judged on counts, store cells and the value-level interval oracle only")
+    if outside:
+        notes.append("variates drawn outside every path and pre-computation: not attributable to a sample")
+    stores = sorted({f"{c.get('q')}:{c.get('type')} held by {c.get('holder')}" for b in batches.values() for c in b["cont"]})
+    if stores:
+        notes.append("stores of pre-drawn variates found by value and observed: " + ", ".join(stores))
+    for p in paths:
+        p["tokens"] = p["tokens"] + sorted(p["pre"], key=str)
+    return dict(paths=paths, seeds=seeds, passes=passes, batches=batches, problems=problems, notes=notes, channels=channels,
+                exact=exact, timeline=timeline, outside=outside, totals=totals)
